@@ -79,6 +79,12 @@ def corrections(darsia, rng, shape, workdir):
     im = darsia.Image(np.zeros((H, W)), space_dim=2, dimensions=[1.0, 1.0], scalar=True)
     A = darsia.AffineTransformation(2)
     A.set_dtype(darsia.make_voxel_center([[0, 0]]), darsia.make_voxel_center([[0, 0]]))
+    # a translating correction between the SAME two coordinate systems comes first: the neutral one that follows is a
+    # different object with a different transformation (each correction object applies its own map)
+    A1 = darsia.AffineTransformation(2)
+    A1.set_dtype(darsia.make_voxel_center([[0, 0]]), darsia.make_voxel_center([[0, 0]]))
+    A1.set_parameters(translation=np.array([1.0, -1.0]), scaling=1.0, rotation=np.array([0.0]))
+    out.append(("transformation-shift", darsia.TransformationCorrection(im.coordinatesystem, im.coordinatesystem, A1), False, False))
     out.append(("transformation-identity", darsia.TransformationCorrection(im.coordinatesystem, im.coordinatesystem, A), True, False))
     # a correction that DECLARES metadata updates (dimensions and origin of the destination frame) and changes the array shape
     src = darsia.Image(np.zeros((H, W)), space_dim=2, dimensions=[0.5 * H, 0.25 * W], origin=[1.0, 2.0], scalar=True)
